@@ -320,3 +320,80 @@ def harness(g, job, level, canary=False):
             if nblocks >= 2:
                 g.witness('second_block_forgets_first')
     g.sample({'scenario': text.split('\n'), 'statuses': statuses})
+
+
+# ------------------------------------------------------------------ end-to-end cross-check (concrete)
+def _klass(statechart, **kw):
+    from sismic.interpreter import Interpreter
+    return Interpreter(statechart, initial_context={'X0': 2}, **kw)
+
+
+def post_levels(tier, seed, report):
+    """every (when, then) pair of the pools as a real feature file through the real execute_bdd / behave
+    runner; the per-step status reported by behave must match the oracle.  Concrete (x0 = 2, waits as
+    written): this is the replay route of C19, not a solver verdict."""
+    import json
+    import os
+    import tempfile
+    from sismic.bdd import execute_bdd
+    from sismic.io import import_from_yaml
+    sc = import_from_yaml(YAML)
+    pairs = [(a, t) for a in ACTIONS for t in THENS]
+    if tier == 'quick':
+        pairs = pairs[::2]
+    viol = []
+    with tempfile.TemporaryDirectory(prefix='vf-bdd-') as d:
+        feat = os.path.join(d, 'gen.feature')
+        out = os.path.join(d, 'out.json')
+        with open(feat, 'w') as fh:
+            fh.write('Feature: generated\n')
+            for i, (a, t) in enumerate(pairs):
+                fh.write('\n  Scenario: s%d\n    When %s\n    Then %s\n' % (i, a, t))
+        try:
+            rc = execute_bdd(sc, [feat], interpreter_klass=_klass, behave_parameters=['-f', 'json', '-o', out, '--no-summary'])
+            data = json.load(open(out))
+        except BaseException as e:   # behave may call sys.exit
+            report['errors'].append('execute_bdd failed: %r' % (e,))
+            return viol
+    got = {}
+    for feature in data:
+        for el in feature.get('elements', []):
+            steps = el.get('steps', [])
+            if len(steps) == 2:
+                got[el['name']] = [st.get('result', {}).get('status', 'skipped') for st in steps]
+    checked = 0
+    for i, (a, t) in enumerate(pairs):
+        ref = Driver(sc, {'X0': 2})
+        ref.act('when', a, 3)
+        fact = bool(ref.fact(t))
+        st = got.get('s%d' % i)
+        if st is None:
+            report['errors'].append('scenario s%d missing from behave output' % i)
+            continue
+        checked += 1
+        if (st[1] == 'passed') != fact or st[0] != 'passed':
+            viol.append({'label': 'behave_verdict_matches_fact', 'scenario': ['When ' + a, 'Then ' + t],
+                         'behave_status': st, 'fact': fact})
+    report['levels'].append({'level': 'E2E-behave', 'scenarios': checked, 'kind': 'concrete end-to-end through execute_bdd',
+                             'exit_code_of_behave': rc})
+    report['paths'] = checked
+    return viol
+
+
+def replay_special(rec):
+    import json
+    import os
+    import tempfile
+    from sismic.bdd import execute_bdd
+    from sismic.io import import_from_yaml
+    sc = import_from_yaml(YAML)
+    with tempfile.TemporaryDirectory(prefix='vf-bdd-') as d:
+        feat = os.path.join(d, 'one.feature')
+        out = os.path.join(d, 'out.json')
+        with open(feat, 'w') as fh:
+            fh.write('Feature: replay\n\n  Scenario: s\n    %s\n    %s\n' % tuple(rec['scenario']))
+        execute_bdd(sc, [feat], interpreter_klass=_klass, behave_parameters=['-f', 'json', '-o', out, '--no-summary'])
+        data = json.load(open(out))
+    st = [x.get('result', {}).get('status') for x in data[0]['elements'][0]['steps']]
+    print(st, rec['fact'])
+    return (st[1] == 'passed') != rec['fact'] or st[0] != 'passed'
